@@ -224,7 +224,8 @@ var directed = []struct{ Src, In string }{
 var sharedVar = kernel.ValueSpec{JSON: `{"a":{"q":1,"r":{"s":[1,2]},"t":{"u":{}}},"b":[1,{"c":2}]}`}
 
 type pool struct {
-	items []poolItem
+	items     []poolItem
+	nDirected int // items[:nDirected]: directed programs, aliasing and big-operand families
 }
 
 type poolItem struct {
@@ -247,6 +248,11 @@ func buildPool(seed uint64) *pool {
 		}
 		pl.items = append(pl.items, poolItem{ps, kernel.ValueSpec{JSON: d.In}})
 	}
+	for _, b := range workload.BigOperands {
+		ps := ProgSpec{Src: b.Src, VarNames: workload.BigVarNames, VarVals: []kernel.ValueSpec{{JSON: workload.BigVarVals[0], Spare: 3}, {JSON: workload.BigVarVals[1]}}}
+		pl.items = append(pl.items, poolItem{ps, kernel.ValueSpec{JSON: b.In}})
+	}
+	pl.nDirected = len(pl.items)
 	for _, f := range workload.Finite {
 		pl.items = append(pl.items, poolItem{ProgSpec{Src: f.Src}, kernel.ValueSpec{JSON: f.In}})
 	}
@@ -294,7 +300,7 @@ func genCase(seed uint64, idx int, tr tiers) Data {
 		var it poolItem
 		switch r.Weighted([]int{4, 3, 3, 2}) {
 		case 0:
-			it = pl.items[r.Intn(len(directed))]
+			it = pl.items[r.Intn(pl.nDirected)]
 		case 1:
 			it = pl.items[r.Intn(len(pl.items))]
 		case 3:
